@@ -74,7 +74,10 @@ theorem cover_form_eq (inp d : Input) (u u' : List ℚ) (proj : List Nat) (m : N
       rw [hl'] at hl0'; cases hl0'
       rw [hD, hD']
       have hm' : ((m : ℕ) : ℚ) ≠ 0 := by exact_mod_cast (Nat.pos_iff_ne_zero.1 hm)
-      refine Qmin_cover (projFun d.n inp.n hn proj) m hm' ?_ l l' ?_ hp' hr' ξ ξ' hst hst'
+      have hone : ((m : ℕ) : ℚ) * (1 / (m : ℚ)) = 1 := by field_simp
+      rw [← one_mul (Q l ξ), ← hone]
+      symm
+      refine Qmin_cover (projFun d.n inp.n hn proj) m (1 / (m : ℚ)) ?_ l l' ?_ hp' hr' ξ ξ' hst hst'
       · intro k
         rw [card_fibre]
         exact hfib k (List.mem_finRange k)
